@@ -1953,8 +1953,9 @@ std::string Analyser::AnalyserImpl::expressionUnits(const UnitsMaps &unitsMaps,
         std::string unit;
 
         if (!unitsMultipliers.empty()) {
-            auto intExponent = int(unitsMultipliers[i]);
-            auto exponent = areNearlyEqual(unitsMultipliers[i], intExponent) ?
+            // Note: a multiplier that is not finite (e.g. a power of infinity) cannot be converted to an integer.
+            auto intExponent = (std::fabs(unitsMultipliers[i]) < 1.0e9) ? int(unitsMultipliers[i]) : 0;
+            auto exponent = ((std::fabs(unitsMultipliers[i]) < 1.0e9) && areNearlyEqual(unitsMultipliers[i], intExponent)) ?
                                 convertToString(intExponent) :
                                 convertToString(unitsMultipliers[i], false);
 
@@ -1966,8 +1967,8 @@ std::string Analyser::AnalyserImpl::expressionUnits(const UnitsMaps &unitsMaps,
         for (const auto &unitsItem : unitsMap) {
             if ((unitsItem.first != "dimensionless")
                 && !areNearlyEqual(unitsItem.second, 0.0)) {
-                auto intExponent = int(unitsItem.second);
-                auto exponent = areNearlyEqual(unitsItem.second, intExponent) ?
+                auto intExponent = (std::fabs(unitsItem.second) < 1.0e9) ? int(unitsItem.second) : 0;
+                auto exponent = ((std::fabs(unitsItem.second) < 1.0e9) && areNearlyEqual(unitsItem.second, intExponent)) ?
                                     convertToString(intExponent) :
                                     convertToString(unitsItem.second, false);
 
